@@ -84,7 +84,7 @@ func c05Run(c *C) {
 		refs[i] = detExec(fresh, detPool(p.inc, nil)[i], 0)
 	}
 	// a second, string-born template compiled concurrently in the same set
-	const strSrc = "S:{{ s }}|{% for i in lst %}{% cycle 1 2 %}{% ifchanged i %}c{% endifchanged %}{% endfor %}|{{ 10 / d }}"
+	const strSrc = "S:{{ s }}|{% for i in lst %}{% cycle 1 2 %}{% ifchanged i %}c{% endifchanged %}{% endfor %}|{{ \"q\\\"uo\\\\te\" }}{{ \"b\\\\s\"|length }}|{{ 10 / d }}"
 	refsStr := make([]execResult, npool)
 	for i := 0; i < npool; i++ {
 		fs, _ := newSet(p.files)
